@@ -178,18 +178,49 @@ type boundedOutcome struct {
 	Took  time.Duration
 }
 
-var boundedSeq atomic.Int64
+// curGoID returns the id of the calling goroutine (parsed from its own stack header).
+func curGoID() int64 {
+	buf := make([]byte, 64)
+	buf = buf[:runtime.Stack(buf, false)]
+	// "goroutine 123 [running]:"
+	var id int64
+	for _, c := range buf[len("goroutine "):] {
+		if c < '0' || c > '9' {
+			break
+		}
+		id = id*10 + int64(c-'0')
+	}
+	return id
+}
+
+// goroutineStateByID returns the scheduler state and stack of goroutine id, from a full dump.
+func goroutineStateByID(id int64) (state, stack string) {
+	buf := make([]byte, 16<<20)
+	buf = buf[:runtime.Stack(buf, true)]
+	hdr := fmt.Sprintf("goroutine %d [", id)
+	for _, g := range strings.Split(string(buf), "\n\n") {
+		if strings.HasPrefix(g, hdr) {
+			if m := goroutineHdr.FindStringSubmatch(g); m != nil {
+				return m[1], g
+			}
+			return "?", g
+		}
+	}
+	return "", ""
+}
 
 // runBounded runs f in its own goroutine and waits at most limit for it to return.
-// Panics are captured.  If f has not returned, the goroutine's scheduler state is taken
-// from a full stack dump: only a goroutine that is *parked* counts as hung; one that is
-// running/runnable means the machine is slow and the verdict is inconclusive.
+// Panics are captured.  If f has not returned, that goroutine's scheduler state is taken
+// from a full stack dump (looked up by goroutine id): only a goroutine that is *parked*
+// counts as hung; running/runnable means the machine is slow and the verdict is
+// inconclusive, as is a goroutine that cannot be found.
 func runBounded(limit time.Duration, f func() error) boundedOutcome {
-	id := boundedSeq.Add(1)
 	done := make(chan boundedOutcome, 1)
+	var gid atomic.Int64
 	t0 := time.Now()
 	go func() {
-		boundedBody(id, f, done)
+		gid.Store(curGoID())
+		boundedBody(f, done)
 	}()
 	select {
 	case o := <-done:
@@ -203,16 +234,24 @@ func runBounded(limit time.Duration, f func() error) boundedOutcome {
 			return o
 		case <-time.After(200 * time.Millisecond):
 		}
-		st, stack := goroutineStateOf(fmt.Sprintf("props.boundedBody(0x%x,", id))
-		if st == "" {
-			st, stack = goroutineStateOf("props.boundedBody(")
+		st, stack := goroutineStateByID(gid.Load())
+		if parkedState(st) {
+			// look twice: a goroutine that was parked only momentarily (woken by a late timer on a
+			// loaded machine) is not hung
+			select {
+			case o := <-done:
+				o.Took = time.Since(t0)
+				return o
+			case <-time.After(3 * time.Second):
+			}
+			st, stack = goroutineStateByID(gid.Load())
 		}
 		return boundedOutcome{Returned: false, State: st, Stack: stack, Took: time.Since(t0)}
 	}
 }
 
 //go:noinline
-func boundedBody(id int64, f func() error, done chan<- boundedOutcome) {
+func boundedBody(f func() error, done chan<- boundedOutcome) {
 	var o boundedOutcome
 	defer func() {
 		if r := recover(); r != nil {
